@@ -49,9 +49,20 @@ def setup():
   @gin.configurable(module='c20')
   def user(x=None):
     return x
+  @gin.configurable(module='c20')
+  def note_closed(verbosity=1):
+    return verbosity
+
+  class Fin:
+    """A resource whose finalizer calls a configurable (a configurable close / report helper)."""
+    def __del__(self):
+      try:
+        note_closed()
+      except Exception:  # pylint: disable=broad-except
+        pass
   gin.config.register_file_reader(lambda p: io.StringIO(MEM[p]), lambda p: p in MEM)
-  global F, USER
-  F, USER = f, user
+  global F, USER, FIN
+  F, USER, FIN = f, user, Fin
 
 
 @contextlib.contextmanager
@@ -72,7 +83,8 @@ def deadline(seconds):
 OPS = ['parse_plain', 'parse_scoped', 'parse_macro', 'parse_import', 'parse_include', 'parse_failing', 'bind_ok',
        'bind_rejected', 'call_plain', 'call_scoped', 'use_singleton', 'finalize', 'unlock_ok', 'unlock_raising',
        'const_K', 'const_aX', 'const_bX', 'interactive_const_X', 'const_dup', 'enter_interactive',
-       'exit_interactive', 'operative_str_fails', 'config_str_fails', 'const_gin_namespace']
+       'exit_interactive', 'operative_str_fails', 'config_str_fails', 'const_gin_namespace',
+       'singleton_with_finalizer']
 KEYS = ['c20.f.a', 'c20.f.b', 's/c20.f.a', 'c20.user.x', 'k/gin.singleton.constructor']
 SING = 'c20.user.x = @k/gin.singleton()\nk/gin.singleton.constructor = @c20.Obj\n'
 
@@ -113,6 +125,8 @@ def do_op(op):
     elif op == 'use_singleton':
       gin.parse_config(SING)
       USER()
+    elif op == 'singleton_with_finalizer':
+      gin.config.singleton_value('c20fin', FIN)      # only Gin references the object: dropping it runs its finalizer
     elif op == 'finalize':
       gin.finalize()
     elif op == 'unlock_ok':
@@ -240,6 +254,7 @@ class World:
 
   def __init__(self):
     harness.hard_reset()
+    harness.hard_reset()    # (restoring the stores may itself run finalizers of the previous world: wipe what they left)
     COUNT.clear()
     self.hist = []
     self._canon = None
